@@ -164,6 +164,48 @@ fn run(name: &str, j: &J) -> Result<bool, String> {
             println!("  schema of SELECT {} AS y: constraint {:?}; f({}) = {}, f({}) = {}", e, map.schema()[0].constraint(), a, va, b, vb);
             Ok(!(claims_unique && a != b && va == vb))
         }
+        // C18: these must return a value or an Err, never panic (a panic is caught by main and reported as `panicked`)
+        "c18_divide_int_super_image" => {
+            let dt = DataType::structured([("a", DataType::integer_interval(i(j, "a_lo"), i(j, "a_hi"))), ("b", DataType::integer_interval(i(j, "b_lo"), i(j, "b_hi")))]);
+            let r = Expr::divide(Expr::col("a"), Expr::col("b")).super_image(&dt);
+            println!("  a / b over {}: {:?}", dt, r.as_ref().map(|t| t.to_string()).map_err(|e| e.to_string()));
+            Ok(true)
+        }
+        "c18_divide_float_super_image" => {
+            let dt = DataType::structured([("a", DataType::float_interval(f(j, "a_lo"), f(j, "a_hi"))), ("b", DataType::float_interval(f(j, "b_lo"), f(j, "b_hi")))]);
+            let r = Expr::divide(Expr::col("a"), Expr::col("b")).super_image(&dt);
+            println!("  a / b over {}: {:?}", dt, r.as_ref().map(|t| t.to_string()).map_err(|e| e.to_string()));
+            Ok(true)
+        }
+        "c18_modulo_super_image" => {
+            let vals = |k: &str| -> Vec<i64> { j[k].as_array().unwrap().iter().map(|x| x.as_i64().unwrap()).collect() };
+            let dt = DataType::structured([("a", DataType::integer_values(vals("a"))), ("b", DataType::integer_values(vals("b")))]);
+            let r = Expr::modulo(Expr::col("a"), Expr::col("b")).super_image(&dt);
+            println!("  a % b over {}: {:?}", dt, r.as_ref().map(|t| t.to_string()).map_err(|e| e.to_string()));
+            Ok(true)
+        }
+        "c18_absolute_upper_bound" => {
+            let dt = DataType::integer_interval(i(j, "lo"), i(j, "hi"));
+            println!("  absolute_upper_bound({}) = {:?}", dt, dt.absolute_upper_bound());
+            Ok(true)
+        }
+        "c18_map_offset" => {
+            let table: Relation = Relation::table().name("t").schema(Schema::builder().with(("a", DataType::integer_interval(0, 10))).build()).size(100).build();
+            let off = j["offset"].as_u64().unwrap() as usize;
+            let m: Relation = Relation::map().name("m").with(("a", Expr::col("a"))).offset(off).input(table).build();
+            println!("  OFFSET {}: size {}", off, m.size());
+            Ok(true)
+        }
+        // C06: the propagated range of a / b must contain the quotient of every point of the argument ranges
+        "c06_divide_float_range" => {
+            let dt = DataType::structured([("a", DataType::float_interval(f(j, "a_lo"), f(j, "a_hi"))), ("b", DataType::float_interval(f(j, "b_lo"), f(j, "b_hi")))]);
+            let e = Expr::divide(Expr::col("a"), Expr::col("b"));
+            let img = e.super_image(&dt).map_err(|e| e.to_string())?;
+            let (a, b) = (f(j, "a"), f(j, "b"));
+            let y = a / b;   // SQL meaning of the guarded division for |b| >= EPSILON
+            println!("  type of a / b over {}: {}; at a = {}, b = {} the quotient is {}", dt, img, a, b, y);
+            Ok(img.contains(&Value::float(y)))
+        }
         _ => Err(format!("unknown replay `{}`", name)),
     }
 }
